@@ -399,9 +399,11 @@ add('k1_loops', 'k3_remove', 'k3_remove_h()', props=['C01', 'C05'], tier='t', ki
 # C03 / C05 / C06 obligations (ownership accounting, recorder preconditions against the current region, panic-view
 # invariant at every call-out) are generated inside the recorders, i.e. by EVERY operation-contract harness: each K2
 # harness of the default build serves all three, whatever property it was written for
+# (thorough tier only: `vp check` stops a quick command after 900 s, and ~100 harnesses per property do not fit that
+# on a loaded machine; the quick tier keeps the instances registered for the property explicitly)
 for h in HS:
     if h.mod.startswith('k2_') and h.kind != 'finding':
-        h.props |= {'C03', 'C05', 'C06'}
+        h.thorough_props = {'C03', 'C05', 'C06'} - h.props
 
 # C10 "len <= capacity always": every operation contract asserts len' <= capacity'; one representative per growing operation serves C10
 for h in HS:
@@ -423,6 +425,7 @@ for nm in NA_BASE:
     h = copy.copy(h0)
     h.name = nm + '_na'
     h.props = {'C19'}
+    h.thorough_props = set()
     h.flags = set(h0.flags) | {'nodefault'}
     h.tier = 'q' if nm in QUICK_NA else 't'
     HS.append(h)
@@ -456,7 +459,8 @@ def write_instances(kv_dir, selected):
 
 
 def select(pid, tier):
-    return [h for h in HS if pid in h.props and (tier == 'thorough' or h.tier == 'q')]
+    return [h for h in HS if (pid in h.props or (tier == 'thorough' and pid in getattr(h, 'thorough_props', ())))
+            and (tier == 'thorough' or h.tier == 'q')]
 
 
 ALL = HS
